@@ -10,6 +10,35 @@ SPEC_DIR = os.path.join(core.SPEC, "doors")
 DECOY = {"op": "add", "a": {"op": "var", "name": "x"}, "b": {"op": "num", "n": 7, "d": 1}}
 
 
+PIPE_SPEC = os.path.join(core.SPEC, "pipes")
+PIPE_TEXT = {
+    "real": ("max x + 2 * y\ns.t.\n    x + y <= 4\n    x - y >= -2\n    x <= 3\ndefine\n    x, y as NonNegativeReal", {"n": 7, "d": 1}),
+    "mixed": ("max 3 * a + 2 * b + z\ns.t.\n    2 * a + b + z <= 4\ndefine\n    a as Boolean\n    b as IntegerRange(0, 3)\n    z as NonNegativeReal(0, 1.5)",
+              {"n": 7, "d": 1}),
+}
+
+
+def pipe_runs(prop, o, meta, only=None):
+    """Every pipe sequence up to MaxLen of Pipes.tla (its design invariants are checked by TLC
+    while it generates), run through the real PipeRunner and judged by PipesTrace.tla."""
+    cases = list(only or [])
+    for cls in (() if only else ("real", "mixed")):
+        cs, g, d = core.gen_cases(PIPE_SPEC, "Pipes.tla", f"Pipes_{cls}.cfg", "pipes" + cls, workers=2)
+        meta["pipes:" + cls] = {"cases": len(cs), "gen_states": d, "gen_transitions": g}
+        for i, c in enumerate(cs):
+            c.update(id=f"P{cls}{i}", text=PIPE_TEXT[cls][0], optimum=PIPE_TEXT[cls][1])
+        cases += cs
+    events = core.rv_parallel("pipes", cases, prop + "-pipes", procs=8)
+    v = core.validate(PIPE_SPEC, "PipesTrace.tla", "PipesTrace.cfg", events, prop, prop + "-pipes", chunks=6)
+    byid = {e["id"]: e for e in events}
+    for r in v.rejects:
+        ev = byid.get(r[2], {})
+        o.violation(f"pipes:{r[3]}:{ev.get('class')}:{'>'.join(ev.get('pipes', []))}",
+                    {k: ev.get(k) for k in ("id", "pipes", "data", "status", "expected", "got", "class", "text", "optimum")},
+                    f"{r[3]}\n  pipes {ev.get('pipes')} over the {ev.get('class')} text: predicted {ev.get('status')} {ev.get('data')} / real {ev.get('out')} {ev.get('kinds')} {ev.get('why', '')[:120]}")
+    return v, events
+
+
 def plans():
     out, meta = {}, {}
     for n in (0, 1, 2):
@@ -127,9 +156,12 @@ def check(tier, seed, replay=None):
     o = core.Outcome(prop, tier, seed)
     core.build_harness()
     meta = {}
+    pipe_only = None
     if replay:
         c = json.load(open(replay))
         cases = [c]
+        if "pipes" in c:
+            pipe_only, cases = [c], []
     else:
         pl, meta = plans()
         cs, g, d = core.gen_cases(lin.SPEC_DIR, "ModelGen.tla", "GenG.cfg", "genG", workers=8)
@@ -163,7 +195,7 @@ def check(tier, seed, replay=None):
             # the builder is given the REAL objective and the decoy; the plan decides which one wins
             case["obj_real"] = c["obj"]
             cases.append(dict(case, obj=m["obj"], sense=m["sense"], builder_obj=c["obj"], builder_sense=c["sense"]))
-    events = core.rv_parallel("doors", cases, prop, procs=10)
+    events = core.rv_parallel("doors", cases, prop, procs=10) if cases else []
     v = core.validate(SPEC_DIR, "DoorsTrace.tla", "DoorsTrace.cfg", events, prop, prop, chunks=12)
     bycase = {c["id"]: c for c in cases}
     byid = {e["id"]: e for e in events}
@@ -173,13 +205,19 @@ def check(tier, seed, replay=None):
         door = r[3].split(":")[0] if ":" in r[3] else "B"
         res = ev.get(door, {}) if door in "BNTKPS" else {}
         o.violation(f"{r[3]}:{c.get('text')}", c, f"{r[3]}\n{c.get('text')}\nplan={[(x['call'], x['n'], x['obj']) for x in c.get('plan', {}).get('calls', [])]} -> {res.get('out')} {res.get('kind','')} {res.get('why','')[:150]}")
+    pv, pev = (None, []) if (replay and not pipe_only) else pipe_runs(prop, o, meta, pipe_only)
     same = sum(1 for s in v.stats if s[3] == 1)
     samples = [{"text": c["text"], "plan": [(x["call"], x["n"], x["obj"]) for x in c["plan"]["calls"]], "expected_objective": c["plan"]["expected"]} for c in cases[::max(1, len(cases) // 3)]][:3]
     o.level = "model_checking"
     o.coverage = {
-        "states": v.distinct + sum(m.get("gen_states", 0) for m in meta.values()),
-        "transitions": v.generated + sum(m.get("gen_transitions", 0) for m in meta.values()),
-        "traces_validated_against_impl": len(v.stats),
+        "states": v.distinct + (pv.distinct if pv else 0) + sum(m.get("gen_states", 0) for m in meta.values()),
+        "transitions": v.generated + (pv.generated if pv else 0) + sum(m.get("gen_transitions", 0) for m in meta.values()),
+        "traces_validated_against_impl": len(v.stats) + (len(pv.stats) if pv else 0),
+        "pipe_runs": {"validated": len(pv.stats) if pv else 0,
+                      "well_typed": sum(1 for s_ in (pv.stats if pv else []) if s_[2] == "ok"),
+                      "kind_mismatch": sum(1 for s_ in (pv.stats if pv else []) if s_[2] == "invalid"),
+                      "refused_by_real_solver": sum(1 for s_ in (pv.stats if pv else []) if s_[2] == "refused"),
+                      "ending_in_a_compared_optimum": sum(1 for s_ in (pv.stats if pv else []) if s_[4] == 1)},
         "samples": samples,
         "evaluations": len(events) * 6,
         "native_overload_trees_equal_to_expr_trees": sum(1 for s in v.stats if len(s) > 5 and s[5] == 1),
